@@ -28,7 +28,7 @@ theorem stillborn_refines {w : WM} {iss : List Handle} {s : WS} (hi : Inv ⟨w, 
     (hk : iss[k]? = some e) (hpe : e ∈ createHandles w.buffers)
     (htab : tabOf w' = ((tabOf w).install e).release e) (hs : Step w w' e.id)
     (hrows : ∀ ai, (w'.arch ai).rows = (w.arch ai).rows)
-    (hsh' : SharedPooled w') (hcl' : Mustache.Model.ArchsClosed w'.deps w'.archs)
+    (hsh' : SharedPooled w')
     (hwid : w'.worldId = w.worldId) (hdeps : w'.deps = w.deps) (hpool : w'.pool = w.pool)
     (hni : w'.nextInst = w.nextInst) (hld : w'.lockDepth = w.lockDepth) (hnt : w'.nthreads = w.nthreads)
     (hmk : w'.marked = w.marked) (hcov : w'.slots.length ≤ w'.locs.length) (hb' : Bounds ⟨w', iss⟩)
@@ -83,7 +83,7 @@ theorem stillborn_refines {w : WM} {iss : List Handle} {s : WS} (hi : Inv ⟨w, 
         · rw [hpool]; exact hi.pool.insts_nodup
         · rw [hpool, hni]; exact hi.pool.inst_lt
         · rw [hpool]; exact hi.pool.inst_sid
-      shared := hsh', closed := hcl'
+      shared := hsh'
       depsB := by show DepsBounded w'.deps; rw [hdeps]; exact hi.depsB
       locsCover := hcov
       bufLe := by show w'.buffers.length ≤ w'.nthreads; rw [hblen, hnt]; exact hi.bufLe
@@ -174,10 +174,6 @@ theorem pack_create_dead {w : WM} {iss : List Handle} {s : WS} (hi : Inv ⟨w, i
       rw [← hDdef]
       show ∀ a ∈ ((startCreate w e).release e).archs, SharedIn ((startCreate w e).release e).pool a.shared
       rw [hrl.1, hctl.pool]; exact hi.shared)
-    (by
-      rw [← hDdef]
-      show Mustache.Model.ArchsClosed ((startCreate w e).release e).deps ((startCreate w e).release e).archs
-      rw [hrl.1, hctl.deps]; exact hi.closed)
     (by rw [← hDdef]; exact hrl.2.2) (by rw [← hDdef]; exact hctl.deps) (by rw [← hDdef]; exact hctl.pool)
     (by rw [← hDdef]; exact hctl.nextInst) (by rw [← hDdef]; rfl) (by rw [← hDdef]; exact hctl.nthreads)
     (by rw [← hDdef]; rfl)
